@@ -83,10 +83,16 @@ namespace cdsverif {
     Case from_bytes( const uint8_t* data, size_t size, Schema const& s, bool thorough );
 
     uint64_t hash_bytes( void const* p, size_t n, uint64_t h = 0xcbf29ce484222325ull );
+    // strong 64-bit mixing (splitmix64 finaliser); order sensitive
     inline uint64_t hash_mix( uint64_t h, uint64_t v )
     {
-        h ^= v + 0x9e3779b97f4a7c15ull + ( h << 6 ) + ( h >> 2 );
-        return h * 0x100000001b3ull;
+        uint64_t z = ( h ^ ( h >> 32 )) * 0x9e3779b97f4a7c15ull + v * 0xbf58476d1ce4e5b9ull + 0x632be59bd9b4e019ull;
+        z ^= z >> 30;
+        z *= 0xbf58476d1ce4e5b9ull;
+        z ^= z >> 27;
+        z *= 0x94d049bb133111ebull;
+        z ^= z >> 31;
+        return z;
     }
 
     SchedParams sched_params( Case const& c );
